@@ -87,7 +87,7 @@ def generated_case(rng, profile=None):
     prog = g.program()
     files = prog.all_files()
     sources = [(f.path, f.text()) for f in prog.mains]
-    case = Case(sources, files, "bk", "gen")
+    case = Case(sources, files, rng.choice(["bk", "bk", "bk", "utf-8", "koi8-r", "cp866"]), "gen")
     case.features = sorted(prog.features)
     case.prog = prog
     # eligible definitions
